@@ -368,7 +368,12 @@ func (m *model) key(b byte) {
 				return
 			}
 			if b == '.' {
-				m.push(m.open(links[n-1]))
+				// a link is an address, never a handle to look up or a file to read: "@user@host" behind a link opens nothing
+				if l := links[n-1]; strings.HasPrefix(l, "@") || strings.HasPrefix(l, "!") {
+					m.push(m.thread(world.Fail))
+				} else {
+					m.push(m.open(l))
+				}
 			}
 			return
 		}
